@@ -129,7 +129,10 @@ def unit_scaling_backend(
                 elif node.target in U.torch_map:
                     target_fn = U.torch_map[node.target]
                     logger.info("unit scaling function: %s", node)
-                    replace_node_with_function(graph, node, target_fn)
+                    # `_stacklevel` is a private arg of the torch functionals (only used
+                    # to attribute warnings), passed by e.g. nn.Softmax / nn.LogSoftmax
+                    kwargs = {k: v for k, v in node.kwargs.items() if k != "_stacklevel"}
+                    replace_node_with_function(graph, node, target_fn, kwargs=kwargs)
 
         # Add metadata denoting the dependencies of every node in the graph
         _add_dependency_meta(graph)
